@@ -249,3 +249,27 @@ def e2_substring3(ctx):
     funcs=[F1 + ':evaluate__substring', 'elementpath/helpers.py:round_number'])
 def e2_substring2(ctx):
     return _substring_e2(P31, 2)
+
+
+@ob(budget=120, bound='map string with a REPEATED character c (c, d over {a,b}; shapes cc, cdc, ccd chosen by the solver), replacement xyz prefix: the first occurrence decides',
+    funcs=[F1 + ':translate'])
+def translate_repeated_map_char(c: str, d: str, shape: int, rl: int) -> bool:
+    """
+    pre: len(c) == 1 and len(d) == 1 and 'a' <= c <= 'b' and 'a' <= d <= 'b' and c != d and 0 <= shape <= 2 and 0 <= rl <= 3
+    post: _
+    """
+    # the solver case-splits the two letters, so that str.maketrans (which CrossHair cannot follow on symbolic strings: every path
+    # aborts) receives concrete strings
+    c = 'a' if c == 'a' else 'b'
+    d = 'a' if d == 'a' else 'b'
+    m = (c + c, c + d + c, c + c + d)[shape]
+    r = 'xyz'[:rl]
+    s = c + d + c
+    out = ''
+    for ch in s:
+        i = m.find(ch)
+        if i < 0:
+            out += ch
+        elif i < len(r):
+            out += r[i]
+    return ev(T['translate'], s=s, m=m, r=r) == [out] and ev(T1['translate'], s=s, m=m, r=r) == [out]
